@@ -175,7 +175,7 @@ func run(rt *rapid.T) {
 }
 
 func TestWeightOwnershipRoot(t *testing.T) {
-	ev.Rapid(t, 1500, 20000)
+	ev.Rapid(t, 5000, 20000)
 	rapid.Check(t, run)
 }
 
